@@ -187,6 +187,55 @@ func runNOOPEARLY(c *Ctx) {
 			c.Violation(ins, P.InstrPos(r), "effect before the no-op return", "inserting an equal value already changed the tree ("+first.Desc+" at "+P.InstrPos(first.Instr)+"): the tree reports dirty and the next MakeRoot rewrites the path")
 		}
 	}
+	// (2) once the key was found, nothing is changed unless the values were compared and differ: every effect
+	// in the key-found region sits on the false edge of DeepEqual(stored value, new value)
+	for _, b := range ins.Blocks {
+		for _, in := range b.Instrs {
+			de, ok := in.(*ssa.Call)
+			if !ok {
+				continue
+			}
+			if sc := ir.Callee(de.Call); sc == nil || sc.String() != "reflect.DeepEqual" {
+				continue
+			}
+			var keyFound ssa.Value
+			for _, f := range ir.FactsAt(b) {
+				if bin, ok := f.Cond.(*ssa.BinOp); ok && ((bin.Op == token.EQL && f.Truth) || (bin.Op == token.NEQ && !f.Truth)) {
+					if k, isK := ir.ConstInt(bin.Y); isK && k == 0 {
+						if _, isInt := bin.X.Type().Underlying().(*types.Basic); isInt {
+							keyFound = f.Cond
+						}
+					}
+				}
+			}
+			if keyFound == nil {
+				continue
+			}
+			for i := range effs {
+				eb := effs[i].Instr.Block()
+				inRegion, onFalse := false, false
+				for _, f := range ir.FactsAt(eb) {
+					if f.Cond == keyFound {
+						if bin := keyFound.(*ssa.BinOp); (bin.Op == token.EQL) == f.Truth {
+							inRegion = true
+						}
+					}
+					if f.Cond == ssa.Value(de) && !f.Truth {
+						onFalse = true
+					}
+				}
+				if !inRegion {
+					continue
+				}
+				if onFalse {
+					c.OK(P.InstrPos(effs[i].Instr), "update of an existing key: "+effs[i].Desc, "only on the false edge of DeepEqual(stored, new)", false)
+				} else {
+					c.Violation(ins, P.InstrPos(effs[i].Instr), "existing key updated without the values having been compared",
+						"on some path the key was found and the tree is changed ("+effs[i].Desc+") although DeepEqual(stored value, new value) was not evaluated to false: re-inserting an equal value dirties the path and the next MakeRoot rewrites nodes for an unmodified tree")
+				}
+			}
+		}
+	}
 	if found == 0 {
 		c.Violation(ins, P.Pos(ins.Pos()), "no early return for an equal value", "Insert of a value equal to the stored one no longer returns before mutating: every no-op insert dirties and rewrites the search path")
 	}
@@ -366,6 +415,47 @@ func runTHRESH(c *Ctx) {
 			}
 			if sb == nil || sb.Op != token.QUO || !mastFieldLoad(sb.X, "shrinkBelowSize") || !mastFieldLoad(sb.Y, "branchFactor") {
 				ok, why = false, "shrinkBelowSize is not divided by branchFactor"
+			}
+		}
+		// the three stores happen together: the threshold stores are conditioned exactly as the height store,
+		// apart from a guard on the threshold's own value (shrinkBelowSize > 1 keeps the division from reaching 0)
+		if ok {
+			type fk struct {
+				cond  string
+				truth bool
+			}
+			factsOf := func(b *ssa.BasicBlock) map[fk]ssa.Value {
+				m := map[fk]ssa.Value{}
+				for _, f := range ir.FactsAt(b) {
+					m[fk{ir.Sym(f.Cond), f.Truth}] = f.Cond
+				}
+				return m
+			}
+			hf := factsOf(hs.Block())
+			selfGuard := func(cond ssa.Value) bool {
+				bin, isBin := cond.(*ssa.BinOp)
+				if !isBin {
+					return false
+				}
+				_, xc := bin.X.(*ssa.Const)
+				_, yc := bin.Y.(*ssa.Const)
+				isT := func(v ssa.Value) bool {
+					return mastFieldLoad(v, "shrinkBelowSize") || mastFieldLoad(v, "growAfterSize")
+				}
+				return (isT(bin.X) && yc) || (isT(bin.Y) && xc)
+			}
+			for _, st := range []*ssa.Store{gs, ss} {
+				tf := factsOf(st.Block())
+				for k, cond := range tf {
+					if _, same := hf[k]; !same && !selfGuard(cond) {
+						ok, why = false, "the threshold update is conditioned on "+pathDesc(k.cond)+", which the height change is not: on the other branch height moves and the thresholds stay"
+					}
+				}
+				for k := range hf {
+					if _, same := tf[k]; !same {
+						ok, why = false, "the height change is conditioned on "+pathDesc(k.cond)+", which the threshold update is not"
+					}
+				}
 			}
 		}
 		if ok {
